@@ -69,7 +69,7 @@ func TestSelf(t *testing.T) {
 		selfFail(t, "scanner accepts damaged chunks: %+v", scan)
 	}
 	// ---- strace: the dry run is reproducible
-	sc := StoreCase{Compressed: true, Chunks: []ChunkSpec{{Kind: "text", Len: 2500, Seed: 5}, {Kind: "rand", Len: 30, Seed: 6}}, Writers: [][]int{{0, 1, 0}}, Keep: "all"}.normalise()
+	sc := StoreCase{Compressed: true, Chunks: []ChunkSpec{{Kind: "text", Len: 2500, Seed: 5}, {Kind: "rand", Len: 30, Seed: 6}}, Writers: [][]int{{0, 1, 0}}, Keep: "all", Bad: "ref"}.normalise()
 	plain := [][]byte{sc.Chunks[0].bytes(), sc.Chunks[1].bytes()}
 	ids := []string{plainID(plain[0]), plainID(plain[1])}
 	d1 := sc.dry(plain, ids, true)
@@ -79,11 +79,10 @@ func TestSelf(t *testing.T) {
 	}
 	want := []string{"mkdirat", "openat", "write", "close", "renameat", "mkdirat", "openat", "write", "close", "renameat", "openat", "write", "close", "renameat"}
 	if !reflect.DeepEqual(d1.Threads[0].Calls, want) {
-		// not fatal for the check (the enumeration follows what is observed) but worth knowing
-		t.Logf("note: StoreChunk makes other calls than expected: %v", d1.Threads[0].Calls)
+		selfFail(t, "the reference store routine is seen making %v, want %v", d1.Threads[0].Calls, want)
 	}
 	// ---- a kill lands at the entry of the chosen call
-	one := StoreCase{Compressed: false, Chunks: []ChunkSpec{{Kind: "rand", Len: 700, Seed: 9}}, Writers: [][]int{{0}}, Keep: "all"}
+	one := StoreCase{Compressed: false, Chunks: []ChunkSpec{{Kind: "rand", Len: 700, Seed: 9}}, Writers: [][]int{{0}}, Keep: "all", Bad: "ref"}
 	for _, tc := range []struct {
 		sys        string
 		leftSize   int64 // -1: no leftover expected
@@ -101,7 +100,7 @@ func TestSelf(t *testing.T) {
 	if got := landing(c); !got.killed || got.leftSize != 5 || got.chunk {
 		selfFail(t, "RLIMIT_FSIZE=5 + kill at the following write: killed=%v leftover size %d (want 5), chunk visible %v", got.killed, got.leftSize, got.chunk)
 	}
-	// ---- the unchanged code passes these, planted defects do not
+	// ---- planted defects are reported under the right signature
 	for _, m := range []struct {
 		c    StoreCase
 		want string
@@ -111,7 +110,6 @@ func TestSelf(t *testing.T) {
 		{StoreCase{Compressed: true, Chunks: one.Chunks, Writers: one.Writers, Mode: "kill", Sys: "write", Count: 2, Bad: "direct"}, "C08:store:partial-visible"},
 		{StoreCase{Chunks: one.Chunks, Writers: one.Writers, Mode: "fsize", Fsize: 100, Bad: "direct"}, "C08:store:error-path-left-chunkname"},
 		{StoreCase{Chunks: one.Chunks, Writers: one.Writers, Mode: "none", Bad: "stray", Keep: "all"}, "C08:store:leftover-not-pruned"},
-		{StoreCase{Chunks: one.Chunks, Writers: one.Writers, Mode: "kill", Sys: "renameat", Count: 1, Keep: "none"}, ""},
 	} {
 		o := runStore(m.c)
 		got := sigs(o)
